@@ -48,6 +48,9 @@ def worlds(tier):
         # the policy's bookkeeping of what it has already handed out must agree with the strategy it reports
         ws.append({"name": f"{pol}-2tasks-2strategies-pool-of-two-workers-with-different-resource-types", "policy": pol, "n": 2, "nstrat": 2, "pools": 1, "occ": False, "split": 7, "weight": 40,
                    "units": ["US", "US"], "split_types": True})
+    # a task that has already run for a while and was preempted competes with fresh ones: its slack counts what REMAINS of it
+    ws.append({"name": "LSF-3tasks-1pool-first-one-preempted-after-progress", "policy": "LSF", "n": 3, "nstrat": 1, "pools": 1, "occ": False, "split": 7, "weight": 40,
+               "units": ["US", "US", "US"], "fixed_demand": True, "preempted": True})
     if tier == "thorough":
         # (the full product policy x {4 tasks, 3 pools} ran past 45 minutes: one policy per larger shape)
         ws.append({"name": "EDF-4tasks-2pools", "policy": "EDF", "n": 4, "nstrat": 1, "pools": 2, "occ": False, "split": 9, "weight": 600, "units": ["US", "MS", "US", "MS"], "fixed_demand": True})
@@ -119,6 +122,20 @@ def run(env, w):
         occ[0] = od
     for t, p in zip(tasks, params):
         t.release(EventTime(p["rel"], US))
+    prog = None
+    if w.get("preempted"):
+        # task 0 ran from its release for `prog` microseconds on pool 0, then was preempted (public lifecycle calls only)
+        t0, p0 = tasks[0], params[0]
+        rt0, dem0, _ = p0["strats"][0]
+        prog = env.int("prog", 1, 2 ** 20)
+        env.assume(sand(prog < rt0, p0["rel"] + prog <= now, dem0 <= caps[0]))
+        st0 = p0["strat_objs"][0]
+        t0.schedule(EventTime(p0["rel"], US), Placement.create_task_placement(task=t0, placement_time=EventTime(p0["rel"], US), worker_pool_id=pools[0].id, execution_strategy=st0))
+        assert pools[0].place_task(t0, execution_strategy=st0)
+        t0.start(EventTime(p0["rel"], US))
+        t0.step(EventTime(p0["rel"], US), EventTime(prog, US))
+        pools[0].remove_task(EventTime(p0["rel"] + prog, US), t0)
+        t0.preempt(EventTime(p0["rel"] + prog, US))
     wl = Workload.from_task_graphs(tgs)
     sch = POL[w["policy"]](runtime=EventTime.zero(), **({"enforce_deadlines": True} if w.get("enforce") else {}))
     pls = sch.schedule(EventTime(now, US), wl, wps)
@@ -138,6 +155,8 @@ def run(env, w):
         slow = p["strats"][0][0]
         for (rt, _, _) in p["strats"][1:]:
             slow = pysym.site(rt > slow, rt, slow)
+        if prog is not None and i == 0:
+            slow = slow - prog  # what remains of the preempted task
         return p["dl_us"] - now - slow
 
     keys = [key(i) for i in range(n)]
